@@ -529,6 +529,22 @@ class Interp:
                 c.v, c.init, c.assigned = self.to_float(r, c.T), True, True
                 return (c.T, c.v)
             raise CUnsupported("assignment to %r" % (c.T,))
+        inner = cparse.strip_paren(e[3])
+        if op == "=" and inner[0] == "assign" and "chained-assign-outer-first" in self.D:
+            # the compiler gives the outer assignment the right operand of the inner one (for a compound inner
+            # assignment: target op operand) and runs the outer assignment first; the inner one evaluates it again
+            c2 = self.lvalue(inner[2])
+            if is_int(c2.T):
+                r2 = self.ev(inner[3])
+                if inner[1] != "=":
+                    if not c2.init:
+                        raise CUndefined("compound assignment to uninitialised variable")
+                    if "compound-src-precast" in self.D and inner[1] not in ("<<=", ">>=") and is_int(r2[0]):
+                        r2 = (c2.T, self.convert(r2, c2.T))
+                    r2 = self.arith(inner[1][:-1], (c2.T, c2.v), r2, compound=True)
+                self.store(c, (c2.T, self.convert(r2, c2.T)))
+                self.ev(e[3])
+                return (c.T, c.v)
         if op == "=":
             r = self.ev(e[3])
             self.store(c, r)
